@@ -45,6 +45,9 @@ func GenOrder(t *rapid.T) *OrderCase {
 	for i := 0; i < nh; i++ {
 		c.Handlers = append(c.Handlers, H{Ctx: rapid.Bool().Draw(t, "ctx"), Async: true})
 	}
+	if nh == 2 && rapid.Bool().Draw(t, "staggered") {
+		c.Pre = rapid.IntRange(1, 5).Draw(t, "pre")
+	}
 	c.Work = rapid.SliceOfN(rapid.IntRange(0, 4), 0, 5).Draw(t, "work")
 	c.Between = rapid.SliceOfN(rapid.IntRange(0, 2), 0, 3).Draw(t, "between")
 	return c
